@@ -210,6 +210,71 @@ def cluster_part(res):
     return nscan, sum(len(s) for _, s in groups)
 
 
+def gen_join_window(rng, sid):
+    """a full iteration between a routing update and the migration it announces: a member has joined and is listed as the owner of
+    partitions whose entries are still on the previous owner (no balancer pass yet); every key is present the whole time"""
+    import dmaplib
+    d = "c12w%d" % sid
+    n = rng.choice([1, 2])
+    keys = [dmaplib.hx("%s%03d" % (rng.choice("ab"), i)) for i in range(rng.choice([40, 90]))]
+    ops = [{"op": "put", "c": "emb%d" % rng.randrange(n), "d": d, "k": k, "v": dmaplib.hx("v")} for k in keys]
+    ops += [{"op": "join"}, {"op": "push"}, {"op": "waitsame"}]
+    scans = [{"op": "scan", "c": c, "d": d, "_n": len(keys)} for c in ["emb0", "emb%d" % n, "cc"]]
+    ops += scans
+    for m in range(n + 1):
+        ops.append({"op": "balance", "m": m})
+    ops.append({"op": "waitstable", "ms": 30000})
+    ops += [dict(o) for o in scans]
+    cluster = {"members": n, "replicas": rng.choice([1, 2]) if n > 1 else 1, "partitions": rng.choice([7, 13]), "table": rng.choice([512, 4096]),
+               "evict_workers": 1, "balancer_ms": 3600000, "push_ms": 3600000}
+    return {"id": sid, "cluster": cluster, "ops": ops, "_keys": keys}
+
+
+def judge_join_window(sc, obs):
+    if len(obs) < len(sc["ops"]):
+        return ("env", "scenario aborted")
+    moved = False
+    for i, (op, ob) in enumerate(zip(sc["ops"], obs)):
+        o, r = op["op"], ob.get("r")
+        if o in ("waitstable", "waitsame", "put", "join") and r != "ok":
+            return ("env", "%s: %s" % (o, r))
+        if o == "balance":
+            moved = True
+        if o == "scan":
+            if r != "ok":
+                return (i, "the iteration through %s failed: %s" % (op["c"], r))
+            got = ob.get("keys") or []
+            miss = set(sc["_keys"]) - set(got)
+            when = "after the migration" if moved else "after the routing update, before the migration"
+            if miss:
+                return (i, "%s the iteration through %s misses %d of %d keys that were present all the time" % (when, op["c"], len(miss), len(sc["_keys"])))
+            if len(got) != len(set(got)) or set(got) - set(sc["_keys"]):
+                return (i, "%s the iteration through %s yields %d keys (%d distinct), %d are present" % (when, op["c"], len(got), len(set(got)), len(sc["_keys"])))
+    return None
+
+
+def join_window_part(res):
+    import memberlib
+    scs = [gen_join_window(vlib.rng_for(res.seed, PID, "joinwindow", j), 53000 + j) for j in range(3 if res.tier == "quick" else 16)]
+    results = memberlib.run_membership(scs, jobs=4)
+    bad = env = 0
+    for sc in scs:
+        r = results[sc["id"]]
+        v = ("env", "") if (r.get("env", {}).get("error") or r.get("env", {}).get("flapped")) else judge_join_window(sc, r["obs"])
+        if v and v[0] == "env":
+            env += 1
+            continue
+        if v:
+            bad += 1
+            if bad <= 3:
+                res.violation({"kind": "impl-violates-property", "part": "join-window", "cluster": sc["cluster"],
+                               "scenario": {"ops": sc["ops"], "_keys": sc["_keys"]}, "failed_step": v[0], "impl_trace": r["obs"][v[0]],
+                               "predicate": {"name": "iteration between routing update and migration", "verdict": v[1]}, "seed": res.seed})
+    res.coverage["join_window"] = {"scenarios": len(scs), "environment": env, "failures": bad,
+                                   "rule": "1-2 members, 40-90 keys, a member joins, the new routing table is on every member, no balancer pass: full "
+                                           "iterations through the embedded client of an old and of the new member and the cluster client; again after the migration"}
+
+
 def run(res):
     c11.run(res, pid=PID, scs_fn=scenarios, nontrivial_fn=nontrivial,
             rule="corpus (holes, recycled tables, stale versions) + seeded random histories of puts/overwrites/deletes/compaction/"
@@ -226,7 +291,23 @@ def run(res):
     nscan, nsc = cluster_part(res)
     res.coverage["cluster_iterations"] = nscan
     res.coverage["cluster_scenarios"] = nsc
+    join_window_part(res)
 
 
 def replay(res, path):
+    obj = json.load(open(path))
+    if obj.get("part") == "join-window":
+        import memberlib
+        ok, out = vlib.harness_build()
+        if not ok:
+            raise vlib.CheckError(out)
+        sc = {"id": 0, "cluster": obj["cluster"], "ops": obj["scenario"]["ops"], "_keys": obj["scenario"]["_keys"]}
+        for attempt in range(3):
+            r = memberlib.run_membership([sc])[0]
+            v = None if r.get("env", {}).get("error") else judge_join_window(sc, r["obs"])
+            if v and v[0] != "env":
+                print(v[1])
+                print("VIOLATION property=%s replay=%s" % (res.pid, path))
+                return 1
+        return 0
     return c11.replay(res, path)
